@@ -177,7 +177,7 @@ type bfsNode struct {
 
 func histBFS(c *core.Ctx, sb *sandbox, res *core.ShardResult, wl *core.WLog) {
 	shape := histShapes[c.Shard%len(histShapes)]
-	maxTrans := c.Q(45000, 2000000)
+	maxTrans := c.Q(35000, 2000000)
 	values := []string{"v1", ""} // an edit, and a file that exists but is empty
 	edits := editOps(shape, values)
 	runs := runOps(shape, true)
